@@ -234,8 +234,36 @@ namespace
     return a;
   }
 
-  std::string stress(World &world, const std::string &poolfile, const unsigned int n_threads, const unsigned int rounds, const unsigned long seed)
+  // the same query through the C interface (handle from create_world)
+  Answer run_query_c(void *handle, const Query &q)
   {
+    Answer a;
+    try
+      {
+        std::vector<unsigned int> flat;
+        for (const auto &e : q.props) { flat.push_back(e[0]); flat.push_back(e[1]); flat.push_back(e[2]); }
+        flat.push_back(0);
+        const unsigned int (*cp)[3] = reinterpret_cast<const unsigned int (*)[3]>(flat.data());
+        const unsigned int n = properties_output_size(handle, cp, static_cast<unsigned int>(q.props.size()));
+        a.values.assign(n, -12345.678);
+        if (q.dim == 3)
+          properties_3d(handle, q.p3[0], q.p3[1], q.p3[2], q.depth, cp, static_cast<unsigned int>(q.props.size()), a.values.data());
+        else
+          properties_2d(handle, q.p2[0], q.p2[1], q.depth, cp, static_cast<unsigned int>(q.props.size()), a.values.data());
+      }
+    catch (std::exception &)
+      {
+        a.threw = true;
+      }
+    return a;
+  }
+
+  std::string stress(World *world_ptr, void *c_handle, const std::string &poolfile, const unsigned int n_threads, const unsigned int rounds, const unsigned long seed)
+  {
+    auto run = [&](const Query &q)
+    {
+      return world_ptr != nullptr ? run_query(*world_ptr, q) : run_query_c(c_handle, q);
+    };
     std::vector<Query> pool;
     {
       std::ifstream in(poolfile);
@@ -308,7 +336,7 @@ namespace
                   if (now_open > 1)
                     overlapped_calls++;
                   seq++;
-                  const Answer a = run_query(world, pool[i]);
+                  const Answer a = run(pool[i]);
                   seq++;
                   --open_calls;
                   calls++;
@@ -322,7 +350,7 @@ namespace
     for (auto &th : threads)
       th.join();
     for (size_t i = 0; i < pool.size(); ++i)
-      reference[i] = run_query(world, pool[i]);
+      reference[i] = run(pool[i]);
     for (unsigned int t = 0; t < n_threads; ++t)
       for (const auto &ia : got[t])
         if (!(ia.second == reference[ia.first]))
@@ -716,7 +744,13 @@ namespace
       {
         // stress world poolfile nthreads rounds seed
         need(6);
-        return stress(st.w(f[1]), f[2], static_cast<unsigned int>(U(f[3])), static_cast<unsigned int>(U(f[4])), U(f[5]));
+        return stress(&st.w(f[1]), nullptr, f[2], static_cast<unsigned int>(U(f[3])), static_cast<unsigned int>(U(f[4])), U(f[5]));
+      }
+    if (op == "stress_c")
+      {
+        // stress_c chandle poolfile nthreads rounds seed : the same through properties_2d / properties_3d of the C interface
+        need(6);
+        return stress(nullptr, st.c(f[1]), f[2], static_cast<unsigned int>(U(f[3])), static_cast<unsigned int>(U(f[4])), U(f[5]));
       }
 
     // ---------------- C API
